@@ -118,7 +118,7 @@ pub trait BlsSignCrypt:
 
         let mut v = vec![0u8; r.len()];
         reader.read(&mut v);
-        debug_assert!(!v.iter().all(|x| *x == 0));
+        debug_assert!(v.len() < 32 || !v.iter().all(|x| *x == 0));
         // V = HℓX(R) ⊕ M
         byte_xor(r, &v)
     }
